@@ -13,3 +13,9 @@ try:
 except common.BuildError as e:
     print('ASan build failed (C11 runs without its ASan pass):', e)
 PY
+python3 - <<'PY'
+import sys
+sys.path.insert(0, '.')
+from vlib import common
+print(common.build('dw', 'debug'))
+PY
